@@ -39,7 +39,13 @@ META = {
         "computes it itself (`instWbd`, from the traits and operand/result register types read off the real op — "
         "theorems instWbd_iff, instWbd_regAlloc, instWbd_operands_irrelevant, instWbd_not_class_constant, "
         "live_mono_wbd, solve_mono_wbd, class_constant_flag_counterexample), and the model's flags are compared with "
-        "would_be_trivially_dead(op) called per instance (`wbd` line)."
+        "would_be_trivially_dead(op) called per instance (`wbd` line). Every way an op can fail to be removable "
+        "occurs as the ONLY consumer of a pure chain: unknown effects (test.op, func.return, func.call), a declared "
+        "WRITE (test.op_with_memwrite, memref.store), a declared ALLOC that names no value (memref.alloc / "
+        "memref.alloca with dynamic sizes), a declared FREE (memref.dealloc), a register write, and being a "
+        "terminator although the op declares no memory effect at all (affine.yield, llvm.return, scf.yield closing "
+        "a function body) — theorems instWbd_terminator_or_symbol, resultOnlyEffects_ne_instWbd, "
+        "instWbd_alloc_free_write; exhaustively for bodies of ≤ 2 (thorough 3) such ops x every terminator kind."
     ),
     "technique": "Lean 4 proof over a scheduler-parametric solver model + differential correspondence (liveness and pop trace per schedule) with the real solver",
     "level_note": (
@@ -59,7 +65,9 @@ META = {
         "(per kind a constant, or — kinds carrying RegisterAllocatedMemoryEffect — 'no result has an allocated "
         "register type'), the model its own instWbd of the instance description (traits whose get_effects the "
         "model does not describe, i.e. dmp.swap here: the flag of the real function for that instance, counted as "
-        "ops.flag_from_real_function). Trusted: Lean kernel, the hand-written model (tied by "
+        "ops.flag_from_real_function). Terminators other than func.return close function bodies only (valid "
+        "position); a body closed by scf.yield is not run through the verifier (scf.yield wants an scf parent; the "
+        "analysis never looks at the parent op), counted as programs.not_verified.*. Trusted: Lean kernel, the hand-written model (tied by "
         "correspondence), Python set/dict semantics, this harness."
     ),
     "rule": (
@@ -69,7 +77,8 @@ META = {
         "distinct program JSON. Every program is solved with the untouched deque, FIFO, LIFO and ≥20 random schedules "
         "(small-scope programs: every schedule). Histogram counts programs per mode, schedules, pops, and programs "
         "whose worklist held ≥2 items at once (where schedules can differ), and programs in which one op class "
-        "has a removable instance before / after a non-removable one (programs.same_class.*)."
+        "has a removable instance before / after a non-removable one (programs.same_class.*), programs closed by "
+        "an effect-free terminator per kind, programs with alloc-/free-only ops."
     ),
     "trusted_base": [
         "correspondence harness harness/props/c25.py (differential: liveness bits + worklist pop trace per schedule)",
@@ -83,9 +92,9 @@ SITE_SOLVER = "xdsl.analysis.dataflow.DataFlowSolver.initialize_and_run"
 
 # Value types: one letter each.  i = i32, m = memref<i32>; register types: r = !riscv.reg (unallocated),
 # R = !riscv.reg<a0>, S = !riscv.reg<t2>, t = !test.reg, T = !test.reg<a1>, x = !x86.reg64, X = !x86.reg64<rax>;
-# f = !stencil.field, p = !stencil.temp.
+# f = !stencil.field, p = !stencil.temp; n = index, u = memref<?xi32>, v = memref<?x?xi32>.
 ALLOCATED = "RSTX"   # the letters that stand for an *allocated* register type
-ALL_TYPES = "imrRStTxXfp"
+ALL_TYPES = "imrRStTxXfpnuv"
 
 # kind -> (operand signature: None = variadic of any types, else one entry per operand listing the admissible
 #          type letters; removable by design: True / False = a constant of the op class, "regs" = decided per
@@ -119,7 +128,32 @@ KINDS: dict[str, tuple[Any, Any]] = {
     # it reads and writes its operand — one class, two design rows
     "swapf": (("f",), False),
     "swapp": (("p",), True),
+    # --- one declared effect kind each (READ alone: read/load, WRITE alone: write/store above) ---------------
+    # plain MemoryAllocEffect: an ALLOC effect that names no value — not an allocation "of the op's own
+    # results" for result_only_effects, the op is not removable; operands = one index per dynamic dimension of
+    # the result type (m: none, u: one, v: two)
+    "cidx": ((), True),                   # arith.constant : index
+    "malloc": ("dyn", False),             # memref.alloc
+    "malloca": ("dyn", False),            # memref.alloca
+    "dealloc": (("muv",), False),         # memref.dealloc: MemoryFreeEffect
+    # --- terminators that DECLARE no memory effect (Pure / NoMemoryEffect): a terminator is never trivially
+    # removable whatever its effects — only generated as the closing op of a function body
+    "ayield": (None, False),              # affine.yield (Pure, no parent constraint)
+    "lret": ("opt", False),               # llvm.return (NoMemoryEffect; no or one operand)
+    "yield": (None, False),               # scf.yield (Pure; wants an scf parent: such programs are not verified)
 }
+TERMINATORS = ("ret", "ayield", "lret", "yield")
+PURE_TERMINATORS = ("ayield", "lret", "yield")
+NEEDS_PARENT = {"yield"}
+DYN_DIMS = {"m": 0, "u": 1, "v": 2}
+
+
+def operand_sig(kind: str, outs: str):
+    """operand signature of one instance (see KINDS); "dyn": one index per dynamic dimension of the result"""
+    sig = KINDS[kind][0]
+    if sig == "dyn":
+        return ("n",) * DYN_DIMS[outs]
+    return sig
 INSTANCE_KINDS = {k for k, (_s, r) in KINDS.items() if r == "regs"} | {"swapf", "swapp"}
 OP_CLASS = {"swapf": "swap", "swapp": "swap"}   # kinds that are the same xDSL op class
 
@@ -132,12 +166,13 @@ def op_removable(kind: str, outs: str) -> bool:
         return not any(c in ALLOCATED for c in outs)
     return bool(r)
 FIXED_OUT = {"const": "i", "addi": "i", "muli": "i", "subi": "i", "xori": "i", "divsi": "i", "load": "i",
-             "write": "", "store": "", "call": "i", "ret": "", "rsw": "", "swapf": "", "swapp": "p"}
+             "write": "", "store": "", "call": "i", "ret": "", "rsw": "", "swapf": "", "swapp": "p",
+             "cidx": "n", "dealloc": "", "ayield": "", "lret": "", "yield": ""}
 # result types the generator chooses from, for kinds whose removability hangs on them
 REG_OUT = {"li": ["r", "r", "R", "S"], "radd": ["r", "r", "R", "S"], "rmul": ["r", "R"], "rmv": ["r", "r", "R", "S"],
-           "rlw": ["r", "R"], "xmov": ["x", "x", "X"],
+           "rlw": ["r", "R"], "xmov": ["x", "x", "X"], "malloc": ["m", "u", "u", "u", "v"], "malloca": ["m", "u", "u", "v"],
            "alloc": ["", "t", "t", "T", "T", "r", "R", "tT", "Tt", "it", "iT", "tt", "rr", "RS", "x", "X", "i", "p"]}
-VAR_OUT = ["i", "i", "i", "i", "ii", "im", "iii", "m", "r", "rR", "rS", "x", "X", "f", "p", "t", "T"]
+VAR_OUT = ["i", "i", "i", "i", "ii", "im", "iii", "m", "r", "rR", "rS", "x", "X", "f", "p", "t", "T", "n", "n", "in", "u"]
 
 
 # ---------------------------------------------------------------------------------------------
@@ -289,8 +324,8 @@ _TY: dict[str, Any] = {}
 
 def build(case: dict):
     """-> (module, top-level op to analyse, body ops in program order, values by id, blocks)"""
-    from xdsl.dialects import arith, func, memref, riscv, rv32, stencil, test, x86
-    from xdsl.dialects.builtin import MemRefType, ModuleOp, f32, i32
+    from xdsl.dialects import affine, arith, func, llvm, memref, riscv, rv32, scf, stencil, test, x86
+    from xdsl.dialects.builtin import DYNAMIC_INDEX, IndexType, MemRefType, ModuleOp, f32, i32
     from xdsl.dialects.experimental import dmp
     from xdsl.dialects.x86 import registers as x86_regs
     from xdsl.ir import Block, Region
@@ -301,7 +336,8 @@ def build(case: dict):
             "r": riscv.IntRegisterType.unallocated(), "R": riscv.Registers.A0, "S": riscv.Registers.T2,
             "t": test.TestRegisterType.unallocated(), "T": test.TestRegisterType.from_name("a1"),
             "x": x86_regs.UNALLOCATED_REG64, "X": x86_regs.RAX,
-            "f": stencil.FieldType([(0, 8), (0, 8)], f32), "p": stencil.TempType([(0, 8), (0, 8)], f32)})
+            "f": stencil.FieldType([(0, 8), (0, 8)], f32), "p": stencil.TempType([(0, 8), (0, 8)], f32),
+            "n": IndexType(), "u": MemRefType(i32, [DYNAMIC_INDEX]), "v": MemRefType(i32, [DYNAMIC_INDEX, DYNAMIC_INDEX])})
         _TY["strategy"] = dmp.GridSlice2dAttr((2, 2))
         for c in ALL_TYPES:
             if (c in ALLOCATED) != bool(getattr(_TY[c], "is_allocated", False)):
@@ -359,6 +395,20 @@ def build(case: dict):
             return x86.DS_MovOp(ins[0], destination=rt[0])
         if kind in ("swapf", "swapp"):
             return dmp.SwapOp.get(ins[0], ty["strategy"])
+        if kind == "cidx":
+            return arith.ConstantOp.from_int_and_width(3, IndexType())
+        if kind == "malloc":
+            return memref.AllocOp(ins, [], rt[0])
+        if kind == "malloca":
+            return memref.AllocaOp.build(operands=[ins, []], result_types=[rt[0]])
+        if kind == "dealloc":
+            return memref.DeallocOp.get(ins[0])
+        if kind == "ayield":
+            return affine.YieldOp.get(*ins)
+        if kind == "lret":
+            return llvm.ReturnOp(*ins)
+        if kind == "yield":
+            return scf.YieldOp(*ins)
         raise core.InfraError(f"unknown op kind {kind}")
 
     if mode == "graph":
@@ -624,7 +674,7 @@ def gen_body(rng, args: str, nops: int, graph: bool, first_id: int = 0) -> list[
     kinds_w = [("const", 2), ("addi", 4), ("muli", 2), ("subi", 2), ("xori", 1), ("divsi", 1), ("pure", 5),
                ("read", 2), ("load", 1), ("test", 2), ("write", 1), ("store", 1), ("call", 1),
                ("alloc", 4), ("li", 2), ("radd", 3), ("rmul", 1), ("rmv", 2), ("rlw", 1), ("rsw", 1), ("xmov", 1),
-               ("swapf", 1), ("swapp", 1)]
+               ("swapf", 1), ("swapp", 1), ("cidx", 1), ("malloc", 2), ("malloca", 1), ("dealloc", 1)]
     eff_scale = rng.choice([0.0, 0.3, 1.0, 1.0, 2.5])
     # share of ops whose removability is a property of the instance (0: the class-constant families alone;
     # large: bodies made of a few op classes with removable and non-removable instances side by side)
@@ -664,7 +714,7 @@ def gen_body(rng, args: str, nops: int, graph: bool, first_id: int = 0) -> list[
                 if near:
                     return rng.choice(near)
             return rng.choice(cands)
-        sig = KINDS[kind][0]
+        sig = operand_sig(kind, outs)
         ins: list[int] = []
         ok = True
         if sig is None:
@@ -698,13 +748,19 @@ def gen_case(rng, mode: str, size: int) -> dict:
         nf = 1 if mode == "func" else rng.randint(1, 3)  # modes module, module_dca
         base = 0
         for _ in range(nf):
-            args = "".join(rng.choice("iiim" if rng.random() < 0.6 else "iimrRtTxfp") for _ in range(rng.randint(0, 3)))
+            args = "".join(rng.choice("iiim" if rng.random() < 0.6 else "iimrRtTxfpnnu") for _ in range(rng.randint(0, 3)))
             ops = gen_body(rng, args, rng.randint(0, size), False, base)
             types = list(args) + [c for o in ops for c in o[2]]
             ivals = [base + k for k, t in enumerate(types) if t == "i"]
             nret = min(len(ivals), rng.choice([0, 1, 1, 1, 2]))
             rets = [rng.choice(ivals[-4:] if rng.random() < 0.7 else ivals) for _ in range(nret)]
             ops.append(["ret", rets, ""])
+            if rng.random() < 0.3:
+                # the body is closed by a terminator that declares no memory effect, with operands of any type
+                allv = list(range(base, base + len(types)))
+                term = rng.choice(PURE_TERMINATORS)
+                k = min(len(allv), rng.choice([0, 1, 1, 2]) if term != "lret" else rng.choice([0, 1, 1]))
+                ops[-1] = [term, [rng.choice(allv[-5:] if rng.random() < 0.7 else allv) for _ in range(k)], ""]
             funcs.append({"public": rng.random() < 0.6, "args": args, "ops": ops})
             base += len(types)
         case = {"mode": mode, "funcs": funcs}
@@ -760,6 +816,32 @@ def small_scope_inst_func(nops: int):
     yield from rec(0, [])
 
 
+def small_scope_eff(nops: int):
+    """every public function body (one index argument) with `nops` ops over {pure n -> n, memref.alloc(n),
+    memref.alloca(n), memref.dealloc(u), read(n) -> n}: one declared effect kind each (none / ALLOC naming no
+    value / FREE / READ), operands among the earlier values of the right type, closed by every terminator kind
+    (func.return: unknown effects; affine.yield, llvm.return, scf.yield: declared effect-free) with no or one
+    operand among all values"""
+    def rec(k: int, ops: list, types: str):
+        if k == nops:
+            for term in TERMINATORS:
+                for v in [None, *range(len(types))]:
+                    yield {"mode": "func", "funcs": [{"public": True, "args": "n",
+                                                      "ops": ops + [[term, [] if v is None else [v], ""]]}],
+                           "seeds": [], "exits": []}
+            return
+        ns = [v for v, t in enumerate(types) if t == "n"]
+        us = [v for v, t in enumerate(types) if t == "u"]
+        for a in ns:
+            yield from rec(k + 1, ops + [["pure", [a], "n"]], types + "n")
+            yield from rec(k + 1, ops + [["read", [a], "n"]], types + "n")
+            yield from rec(k + 1, ops + [["malloc", [a], "u"]], types + "u")
+            yield from rec(k + 1, ops + [["malloca", [a], "u"]], types + "u")
+        for a in us:
+            yield from rec(k + 1, ops + [["dealloc", [a], ""]], types)
+    yield from rec(0, [], "n")
+
+
 def same_class_orders(case: dict) -> set[str]:
     """which relative orders of a removable and a non-removable instance of one op class occur"""
     seen: dict[str, set[bool]] = {}
@@ -806,7 +888,7 @@ def shrink_case(case: dict, still_fails) -> dict:
             for oi in reversed(range(len(f["ops"]))):
                 gi -= 1
                 kind, ins, res, _p, _rm = ops[gi]
-                if kind == "ret" or any(r in used for r in res):
+                if kind in TERMINATORS or any(r in used for r in res):
                     continue
                 c = json.loads(json.dumps(cur))
                 del c["funcs"][fi]["ops"][oi]
@@ -914,6 +996,14 @@ class Batch:
 
 def check_program(ctx: core.Ctx, batch: Batch, case: dict, nsched: int, exhaustive_sched: bool = False,
                   verify: bool = False, second_order: bool = True, cap2: int = 400) -> None:
+    kinds_used = {o[0] for f in case["funcs"] for o in f["ops"]}
+    if kinds_used & NEEDS_PARENT:
+        verify = False   # e.g. scf.yield outside an scf op: the analysis does not look at parents
+        ctx.count("programs.not_verified.terminator_wants_other_parent")
+    for k in sorted(kinds_used & set(PURE_TERMINATORS)):
+        ctx.count("programs.closed_by_effect_free_terminator." + k)
+    if kinds_used & {"malloc", "malloca", "dealloc"}:
+        ctx.count("programs.with_alloc_or_free_only_ops")
     base = analyse(case, None, verify=verify)          # the solver exactly as shipped (deque, FIFO)
     if exhaustive_sched:
         runs, complete = all_schedules(case)
@@ -1059,6 +1149,15 @@ def run(ctx: core.Ctx) -> None:
         for case in small_scope_inst_func(n):
             check_program(ctx, batch, case, 0, exhaustive_sched=True, cap2=48 if quick else 160)
             ctx.count(f"small_scope_inst_func.{n}")
+    # 1c. one declared effect kind per op (none / READ / ALLOC without value / FREE) x every terminator kind
+    # (unknown effects / declared effect-free), ≤ 2 (thorough 3) ops before the terminator, every schedule
+    for n in ((0, 1, 2) if quick else (0, 1, 2, 3)):
+        for case in small_scope_eff(n):
+            if ctx.time_left() < 0.25 * ctx.budget_s:
+                ctx.count(f"small_scope_eff.{n}.truncated_by_budget")
+                break
+            check_program(ctx, batch, case, 0, exhaustive_sched=True, cap2=24 if quick else 120)
+            ctx.count(f"small_scope_eff.{n}")
     ctx.exhaustive = True
     ctx.extra["exhaustive_scope"] = (
         f"all graph-mode programs with {full} single-result ops over {{pure x, pure x y, test x}} with operands "
@@ -1066,7 +1165,10 @@ def run(ctx: core.Ctx) -> None:
         f"order of the real solver; a random sample of those with {nxt} ops; all graph-mode programs with ≤ 3 "
         "one-operand test.allocatable ops whose result register is unallocated (removable instance) or allocated "
         "(non-removable instance), same operand/exit choices, every worklist order, and the same ≤ 3 ops in a "
-        "function body (operands among two block arguments and earlier results); random programs beyond")
+        "function body (operands among two block arguments and earlier results); all public function bodies with "
+        "≤ 2 (thorough ≤ 3) ops over {test.pureop, test.op_with_memread, memref.alloc, memref.alloca, memref.dealloc} "
+        "(declared effects: none / READ / ALLOC naming no value / FREE) closed by each of func.return, affine.yield, "
+        "llvm.return, scf.yield (the last three declare no memory effect) with no or one operand; random programs beyond")
     # 2. random programs: untouched deque + FIFO + LIFO + ≥ 20 random schedules each
     nsched = 20 if quick else 24
     plan = [("func", 12, 120), ("module", 10, 100), ("module_dca", 8, 60), ("graph", 10, 400), ("graph", 30, 80)] if quick else \
